@@ -29,7 +29,7 @@ REAL = ['py4hw.logic.arithmetic_fxp (FixedPointAdd/Sub/Mult/Sign)', 'py4hw.logic
 STUB = ['stimulus']
 ASSUMPTIONS = ['product = exact signed product floored to the result fraction bits, then reduced modulo the result width',
                'comparator only checked where the signed difference is representable in the operand format']
-PROBES = ['settled_by_clk0', 'block_added_after_simulation', 'sign_only_format', 'squarer', 'mixed_operand_formats', 'most_negative', 'mult_full_width', 'cmp_representable', 'cmp_unrepresentable_skipped', 'wrap_add']
+PROBES = ['block_in_gated_domain', 'operands_from_constant_blocks', 'operands_from_helper_constants', 'outputs_read_at_time_zero', 'settled_by_clk0', 'block_added_after_simulation', 'sign_only_format', 'squarer', 'mixed_operand_formats', 'most_negative', 'mult_full_width', 'cmp_representable', 'cmp_unrepresentable_skipped', 'wrap_add']
 
 
 def gen(rs, tier, index):
@@ -80,7 +80,19 @@ def gen(rs, tier, index):
     fr = rs.get('faults')
     steps = [{'vec': v, 'faults': [x for x in ('resort', 'sim_restart', 'extra_settle') if fr.random() < 0.05]} for v in vecs]
     return {'blk': blk, 'af': af, 'bf': bf, 'square': square, 'rf': rf, 'steps': steps, 'perm': rs.sub('perm') if fr.random() < 0.7 else None,
-            'inregs': rng.random() < 0.5, 'settle': fr.choice(['clk1', 'clk1', 'clk0', 'prop']), 'late_dut': fr.random() < 0.2}
+            'inregs': rng.random() < 0.5, 'settle': fr.choice(['clk1', 'clk1', 'clk0', 'prop']), 'late_dut': fr.random() < 0.2,
+            # operand source: poked wires, Constant blocks that exist before the block under test (value re-assigned every
+            # vector), or two placeholders from LogicHelper.hw_constant with the same initial value
+            'src': fr.choice(['put', 'put', 'const', 'helper_const']),
+            # time_zero: the first vector is applied before the simulator is asked for, outputs are read before any clk()
+            'time_zero': fr.random() < 0.3,
+            # gated_box: the (combinational) block sits in a sub-block whose clock driver is gated, next to a register of that
+            # domain; its operands come from registers of the running system domain; the enable is low most of the time
+            'gated_box': fr.random() < 0.2, 'en_seed': rs.sub('en')}
+
+
+class _Box(py4hw.Logic):
+    pass
 
 
 def run(scn, log, st):
@@ -89,7 +101,29 @@ def run(scn, log, st):
     square = bool(scn.get('square'))
     w, rw, wb = sum(af), sum(rf), sum(bf)
     hw = py4hw.HWSystem()
-    ins = [hw.wire('a', w), hw.wire('b', wb)]
+    src = scn.get('src', 'put') if not (scn['inregs'] or square) else 'put'
+    first = scn['steps'][0]['vec'] if scn['steps'] else [0, 0]
+    drivers = None
+    if src == 'const':
+        ins = [hw.wire('a', w), hw.wire('b', wb)]
+        drivers = [py4hw.Constant(hw, 'ka', first[0], ins[0]), py4hw.Constant(hw, 'kb', first[1], ins[1])]
+        st.probe('operands_from_constant_blocks')
+    elif src == 'helper_const':
+        from py4hw.helper import LogicHelper
+        g = LogicHelper(hw)
+        ins = [g.hw_constant(w, 0), g.hw_constant(wb, 0)]       # two placeholders, one initial value
+        drivers = [x.getSource().parent for x in ins]
+        st.probe('operands_from_helper_constants')
+    else:
+        ins = [hw.wire('a', w), hw.wire('b', wb)]
+
+    def drive(a_, b_):
+        if drivers is None:
+            ins[0].put(a_)
+            ins[1].put(b_)
+        else:
+            drivers[0].value = a_
+            drivers[1].value = b_
     feed = ins
     if scn['inregs']:
         feed = [hw.wire('qa', w), hw.wire('qb', wb)]
@@ -101,30 +135,47 @@ def run(scn, log, st):
     if bf != af:
         st.probe('mixed_operand_formats')
     outs = {}
+    par = hw
     if scn.get('late_dut'):
-        # the simulator exists and has run before the block under test is instantiated
+        # the simulator exists and has run before the block under test is instantiated - inside an existing sub-block
+        par = _Box(_Box(hw, 'datapath'), 'inner')
+        t_ = par.wire('tie')
+        py4hw.Constant(par, 'tie', 0, t_)
+        py4hw.Buf(par, 'keep', t_, par.wire('kept'))
         with quiet():
             hw.getSimulator().clk(2)
         st.fault('late_add')
         st.probe('block_added_after_simulation')
+    en_w = None
+    if scn.get('gated_box') and scn['inregs'] and not scn.get('late_dut'):
+        par = _Box(hw, 'gated')
+        en_w = hw.wire('en')
+        par.clockDriver = py4hw.ClockDriver('gclk', base=hw.clockDriver, enable=en_w)
+        py4hw.Reg(par, 'dreg', feed[0], par.wire('dq', w))
+        en_rng = random.Random(scn.get('en_seed', 0))
+        st.probe('block_in_gated_domain')
+    time_zero = bool(scn.get('time_zero')) and not scn['inregs'] and not scn.get('late_dut') and bool(scn['steps'])
+    if time_zero:
+        drive(first[0], first[0] if square else first[1])
+        st.probe('outputs_read_at_time_zero')
     with quiet():
         if blk == 'add':
             outs['r'] = hw.wire('r', w)
-            FixedPointAdd(hw, 'dut', feed[0], af, feed[1], af, outs['r'], af)
+            FixedPointAdd(par, 'dut', feed[0], af, feed[1], af, outs['r'], af)
         elif blk == 'sub':
             outs['r'] = hw.wire('r', w)
-            FixedPointSub(hw, 'dut', feed[0], af, feed[1], af, outs['r'], af)
+            FixedPointSub(par, 'dut', feed[0], af, feed[1], af, outs['r'], af)
         elif blk == 'mult':
             outs['r'] = hw.wire('r', rw)
-            FixedPointMult(hw, 'dut', feed[0], af, feed[1], bf, outs['r'], rf)
+            FixedPointMult(par, 'dut', feed[0], af, feed[1], bf, outs['r'], rf)
         elif blk == 'sign':
             outs['s'] = hw.wire('s')
-            FixedPointSign(hw, 'dut', feed[0], af, outs['s'])
+            FixedPointSign(par, 'dut', feed[0], af, outs['s'])
             py4hw.Buf(hw, 'keep_b', feed[1], hw.wire('bsink', w))
         else:
             for k in ('gt', 'eq', 'lt'):
                 outs[k] = hw.wire(k)
-            FixedPointComparator(hw, 'dut', feed[0], af, feed[1], af, outs['gt'], outs['eq'], outs['lt'])
+            FixedPointComparator(par, 'dut', feed[0], af, feed[1], af, outs['gt'], outs['eq'], outs['lt'])
     st.sched(scn.get('perm'), tuple(tuple(x['faults']) for x in scn['steps']))
     if scn.get('perm') is not None:
         seams.perm_children(hw, random.Random(scn['perm']), st)
@@ -149,11 +200,16 @@ def run(scn, log, st):
         a, b = step['vec']
         if square:
             b = a
-        ins[0].put(a)
-        ins[1].put(b)
+        drive(a, b)
+        if en_w is not None:
+            en_w.put(1 if en_rng.random() < 0.25 else 0)
         how = scn.get('settle', 'clk1') if not scn['inregs'] else 'clk1'
+        if time_zero and si == 1 and not step['faults']:
+            how = 'none'            # nothing but the creation of the simulator has happened
         with quiet():
-            if how == 'clk0':
+            if how == 'none':
+                pass
+            elif how == 'clk0':
                 sim.clk(0)              # settle only, no edge
                 st.probe('settled_by_clk0')
             elif how == 'prop':
